@@ -153,3 +153,17 @@ func VerifC08Inherit(parent, child *middleware.ResponseMeta) {
 	l := subQueryLineage{parent: parent, child: child}
 	l.inherit()
 }
+
+// VerifC08DenialProofExpiry exposes denialProofExpiry (lifetime of an RFC 8198 / RFC 8020
+// proof the cache synthesizes answers from) over a SOA + NSEC record set.
+func VerifC08DenialProofExpiry(now time.Time, maxTTL time.Duration, cutUntil time.Time, soaTTL, soaMin uint32, nsecTTLs []uint32) (time.Time, bool) {
+	var rrs []dns.RR
+	rrs = append(rrs, &dns.SOA{Hdr: dns.RR_Header{Name: "c08.example.", Rrtype: dns.TypeSOA, Class: dns.ClassINET, Ttl: soaTTL}, Ns: "ns.c08.example.", Mbox: "h.c08.example.", Minttl: soaMin})
+	for i, t := range nsecTTLs {
+		rrs = append(rrs, &dns.NSEC{Hdr: dns.RR_Header{Name: "a.c08.example.", Rrtype: dns.TypeNSEC, Class: dns.ClassINET, Ttl: t}, NextDomain: "z.c08.example.", TypeBitMap: []uint16{uint16(1 + i)}})
+	}
+	return denialProofExpiry(now, maxTTL, cutUntil, rrs)
+}
+
+// VerifC08MaxDenialProofTTL reads the ceiling constant.
+func VerifC08MaxDenialProofTTL() time.Duration { return maxDenialProofTTL }
